@@ -136,9 +136,9 @@ def observe_doc(ctx, text, info, tree, hists):
         t2, e2 = try_apply(t1, ("rm", p))
         hists.append(ec.run_real(text, [op, ("rm", p)], dict(info, law="set-rm")))
         if t2 != text:
-            via = "call-argument" if wrapper in ("call", "call-select", "lambda-call") and p.startswith("@") else "other"
-            if via == "other" and p.startswith("@") and leading_comment_before_target(text):
-                via = "comment-before-target"
+            via = "call-argument" if wrapper in docs.CALL_WRAPPERS and p.startswith("@") else "other"
+            if via == "other" and p.startswith("@") and leading_comment_before_target(text) and t2 == text.rstrip("\n"):
+                via = "comment-before-target"  # exactly the known effect: only the final newline is gone
             ctx.fail({"clause": "set-rm-restores", **key0, "scoped": p.startswith("@"), "via": via},
                      {"doc": text, "ops": [list(op), ["rm", p]], "after_set": t1, "after_rm": t2},
                      f"set {p!r} then rm on {text!r} gives {t2!r} (error {e2})")
@@ -179,13 +179,18 @@ def observe_doc(ctx, text, info, tree, hists):
 
 
 def leading_comment_before_target(text: str) -> bool:
-    """is there a comment directly before the target set (so that `target.before` is not empty)?"""
+    """is there a comment or a blank line directly before the target set (so that `target.before`
+    is not empty)?"""
     root = cstread.ts_parse(text)
     tgt = cstread.find_target(root)
     if tgt is None:
         return False
     prev = tgt.prev_sibling
-    return prev is not None and prev.type == "comment"
+    if prev is not None and prev.type == "comment":
+        return True
+    b = text.encode("utf-8")
+    gap = b[prev.end_byte:tgt.start_byte] if prev is not None else b[:tgt.start_byte]
+    return gap.count(b"\n") >= 2
 
 
 def search(ctx: fw.Ctx):
